@@ -492,7 +492,7 @@ def _iterator_to_index_loop(st):
         if k == 'ref' and x.get('d') == it['d']:
             keep = {kk: x.get(kk) for kk in ('loc', 'sid', 'cty', 'ty')}
             x.clear()
-            x.update({'k': 'call', 'ck': 'operator', 'op': '+', 'callee': 'iterator::operator+', 'callee_in_repo': False, 'obj': _fresh(i0), 'args': [iref(keep['loc'])],
+            x.update({'k': 'call', 'ck': 'operator', 'op': '+', 'callee': 'iterator::operator+', 'callee_in_repo': False, 'synthetic': True, 'obj': _fresh(i0), 'args': [iref(keep['loc'])],
                       'arrow': False, 'method_const': True, 'method_static': False, 'from_iterator': it['name']})
             x.update(keep)
             return
